@@ -141,7 +141,8 @@ func crashBefore(env *storeEnv, reqs []childReq, c sysCall, scratch string) (boo
 				if i := strings.Index(want, ".tmp-"); i >= 0 {
 					want = want[:i+5]
 				}
-				hit = strings.HasSuffix(strings.TrimSpace(ln), "= ?") && (want == "" || strings.Contains(ln, want))
+				// (whatever temporary names look like, the call must at least be on the same directory)
+				hit = strings.HasSuffix(strings.TrimSpace(ln), "= ?") && (want == "" || strings.Contains(ln, want) || strings.Contains(ln, filepath.Dir(c.Path)+"/"))
 			}
 		}
 	}
@@ -266,6 +267,21 @@ func c20Run(env *storeEnv, sc c20Scenario, work string) (int, int, error) {
 				}
 			}
 			cur, rerr := os.ReadFile(target)
+			if rerr != nil {
+				// whatever the temporary file is called in this run: it is the one file of the crash state that
+				// the state before the store does not have
+				var fresh []string
+				was := snapshotTree(pre)
+				for rel, kind := range snapshotTree(dir) {
+					if _, ok := was[rel]; !ok && kind == "f" {
+						fresh = append(fresh, rel)
+					}
+				}
+				if len(fresh) == 1 {
+					target = filepath.Join(dir, fresh[0])
+					cur, rerr = os.ReadFile(target)
+				}
+			}
 			if rerr != nil {
 				return 0, 0, fmt.Errorf("HARNESS-SELFTEST cannot read the file being written in the crash state: %v", rerr)
 			}
